@@ -263,6 +263,14 @@ class Check:
             self.violations.append({"kind": "proof-obligation", "what": "obligations not discharged: %s" % ", ".join(undis[:8]),
                                     "replay": {"undischarged": {t: self.failed_obligations.get(t, "?") for t in undis}},
                                     "concrete": False})
+        # a broken proof/correspondence for which the search found a concrete failing input is reported through that
+        # input; the broken obligation/stream is named inside the same replay file
+        conc = [v for v in self.violations if v["concrete"]]
+        if conc:
+            rest = [v for v in self.violations if not v["concrete"]]
+            for v in conc:
+                v["replay"]["broken_obligations_or_streams"] = [{"kind": r["kind"], "what": r["what"]} for r in rest]
+            self.violations = conc
         known = load_known()
         lines = []
         n_viol = 0
